@@ -135,3 +135,52 @@ def build_frame_bytes(header, data, flags, good=True, crc8=None, size=None, ftyp
     hdr4 = sz.to_bytes(2, "little") + bytes([ftype, flags])
     c8 = ref_crc8(hdr4) if crc8 is None else crc8
     return b"\xde\xad" + hdr4 + bytes([c8]) + body
+
+
+def stamp_all(frames, seq, force_blackbox=False):
+    """The bytes uart.send() writes for each frame while the numbering state is `seq` (none of them acknowledged).
+    Fast path: the protocol's two stamping helpers, when it has them under their usual names; otherwise black box:
+    a real ZbossNcpProtocol under the virtual-time loop, brought to state `seq` by acknowledged dummy sends, every frame
+    sent and left to expire."""
+    log = []
+    proto, _ = make_proto(log, pack_seq=seq)
+    if not force_blackbox and hasattr(proto, "_set_frame_flag") and hasattr(proto, "_ll_checksum"):
+        return [bytes(proto._ll_checksum(proto._set_frame_flag(f)).serialize()) for f in frames]
+    import asyncio
+    import zigpy_zboss.config as conf
+    import zigpy_zboss.types as t
+    from zigpy_zboss import uart as U
+    from zigpy_zboss.frames import Frame, HLPacket, LLHeader
+    from vloop import VLoop, Wire as VWire
+    loop = VLoop()
+    asyncio.set_event_loop(loop)
+    try:
+        cfg = conf.CONFIG_SCHEMA({conf.CONF_DEVICE: {conf.CONF_DEVICE_PATH: "/dev/null"}})
+
+        class Api:
+            def frame_received(self, f):
+                pass
+
+            def connection_lost(self, e):
+                pass
+        p = U.ZbossNcpProtocol(cfg[conf.CONF_DEVICE], Api())
+        w = VWire()
+        p.connection_made(w)
+        cur = 0
+        for _ in range(seq):                       # 0 -> 1 -> 2 -> 3
+            hl = HLPacket(t.HLCommonHeader(0x00010000), t.Bytes(b""))
+            ll = LLHeader().with_signature(Frame.signature).with_size(hl.length + 5).with_type(6).with_flags(0xC0)
+            loop.create_task(p.send(Frame(ll, hl)))
+            loop.settle()
+            p.data_received(build_frame_bytes(None, b"", 1 | (cur << 4)))
+            loop.settle()
+            cur = cur % 3 + 1
+        n0 = len(w.log)
+        for f in frames:
+            loop.create_task(p.send(f))
+            loop.settle()
+            loop.advance(U.ACK_TIMEOUT + 0.001)
+        return [bytes(x) for x in w.log[n0:]]
+    finally:
+        asyncio.set_event_loop(None)
+        loop.close()
